@@ -76,6 +76,7 @@ type Out struct {
 	hashes       map[uint64]struct{}
 	curCase      any
 	maxSamples   int
+	noConfirm    bool
 }
 
 func newOut() *Out {
@@ -160,16 +161,17 @@ func (o *Out) Anomaly() { o.mu.Lock(); o.Anomalies++; o.mu.Unlock() }
 
 // Part is one workload+monitor of a property.
 type Part struct {
-	Prop     string
-	Name     string
-	Flavour  string // sim | race | plain
-	Shards   func(e *Env) int
-	TimeoutS func(e *Env) int
-	Procs    int // GOMAXPROCS for race/plain (0 = 16)
-	NeedBin  bool
-	gen      func(e *Env) []json.RawMessage
-	run      func(e *Env, raw json.RawMessage, o *Out)
-	finish   func(e *Env, o *Out)
+	Prop      string
+	Name      string
+	Flavour   string // sim | race | plain
+	Shards    func(e *Env) int
+	TimeoutS  func(e *Env) int
+	Procs     int // GOMAXPROCS for race/plain (0 = 16)
+	NeedBin   bool
+	NoConfirm bool
+	gen       func(e *Env) []json.RawMessage
+	run       func(e *Env, raw json.RawMessage, o *Out)
+	finish    func(e *Env, o *Out)
 }
 
 var parts []*Part
@@ -180,6 +182,10 @@ type Opts struct {
 	TimeoutS, TimeoutSThorough int
 	Procs                      int
 	NeedBin                    bool
+	// NoConfirm: violations of this part are reported as they come (parts that explore schedules at hook points
+	// without sockets: nothing in them depends on packet delivery, and goroutines leaked by earlier explorations
+	// of the same process - pool and limiter tickers - make a second exploration differ from the first)
+	NoConfirm bool
 }
 
 // AddPart registers a part. gen must be deterministic in (tier, seed).
@@ -196,7 +202,7 @@ func AddPart[C any](prop, name, flavour string, op Opts, gen func(e *Env) []C, r
 	if op.TimeoutSThorough == 0 {
 		op.TimeoutSThorough = op.TimeoutS * 6
 	}
-	p := &Part{Prop: prop, Name: name, Flavour: flavour, Procs: op.Procs, NeedBin: op.NeedBin}
+	p := &Part{Prop: prop, Name: name, Flavour: flavour, Procs: op.Procs, NeedBin: op.NeedBin, NoConfirm: op.NoConfirm}
 	p.Shards = func(e *Env) int {
 		if e.Thorough() {
 			return op.ShardsThorough
@@ -300,6 +306,7 @@ func Main() {
 		os.Exit(3)
 	}
 	out := newOut()
+	out.noConfirm = part.NoConfirm
 	var cases []json.RawMessage
 	if *fReplay != "" {
 		b, err := os.ReadFile(*fReplay)
@@ -332,61 +339,7 @@ func Main() {
 		if firstCase == nil {
 			firstCase = cv
 		}
-		// A case during which a time anomaly was flagged (virtual time moved where
-		// no wait was scripted) is re-executed; if it stays anomalous it is
-		// recorded as inconclusive and its observations are discarded.
-		var prevSigs []string
-		sameSigs := true
-		for attempt := 1; ; attempt++ {
-			// a re-execution waits much longer for the network before the virtual clock may jump (20 ms, then
-			// 100 ms of real time per jump instead of 0.3 ms): an anomaly caused by late delivery of loopback
-			// packets on a loaded machine does not repeat, a delay caused by the code under test does
-			switch attempt {
-			case 1:
-				SetPollDelay(DefaultPollDelay)
-			case 2:
-				SetPollDelay(20e6)
-			default:
-				SetPollDelay(100e6)
-			}
-			co := newOut()
-			co.curCase = cv
-			co.Samples = append(co.Samples, out.Samples...)
-			a0 := anomalyCount.Load()
-			part.run(env, c, co)
-			if anomalyCount.Load() == a0 {
-				out.merge(co)
-				SetPollDelay(DefaultPollDelay)
-				break
-			}
-			out.Anomalies++
-			// signatures of this attempt
-			var sigs []string
-			for k := range co.ViolCount {
-				sigs = append(sigs, k)
-			}
-			sort.Strings(sigs)
-			if attempt > 1 && strings.Join(sigs, "\x00") != strings.Join(prevSigs, "\x00") {
-				sameSigs = false
-			}
-			prevSigs = sigs
-			if attempt >= 3 {
-				anomalyMu.Lock()
-				why := fmt.Sprint(anomalyWhy)
-				anomalyWhy = nil
-				anomalyMu.Unlock()
-				if sameSigs && len(sigs) > 0 {
-					// the same violation on every attempt is not a scheduling accident of the virtual clock:
-					// it is reported (the unexpected virtual delay is part of the symptom)
-					co.Notes = append(co.Notes, fmt.Sprintf("case %s: virtual time moved unexpectedly on all %d attempts with identical violations (%s)", c, attempt, why))
-					out.merge(co)
-				} else {
-					out.Inconclusive = append(out.Inconclusive, fmt.Sprintf("case %s: time anomaly on %d attempts, observations discarded (%s)", c, attempt, why))
-				}
-				SetPollDelay(DefaultPollDelay)
-				break
-			}
-		}
+		out.runConfirmed(string(c), cv, func(co *Out) { part.run(env, c, co) })
 	}
 	out.curCase = nil
 	if len(out.Samples) == 0 && firstCase != nil {
@@ -406,7 +359,10 @@ func Main() {
 	os.Exit(0)
 }
 
-var anomalyCount atomic.Int64
+// confirmedSigs: violation signatures that three executions in a row of some case of this process agreed on.
+var confirmedSigs = map[string]bool{}
+
+var anomalyCount, anomalyAbsorbed atomic.Int64
 
 // FlagAnomaly marks the running case as disturbed by a spurious virtual-time
 // jump; the framework re-executes it.
@@ -423,6 +379,101 @@ var (
 	anomalyMu  sync.Mutex
 	anomalyWhy []string
 )
+
+// runConfirmed executes one unit of work (a case, or a smaller unit inside a case) under the re-execution protocol.
+//
+// The unit is re-executed (a) when a time anomaly was flagged during it (virtual time moved where no wait was
+// scripted) and (b), in the virtual-clock flavour, when it produced a violation whose signature has not been
+// confirmed in this process yet. After a flagged anomaly the re-executions wait longer for the network before the
+// virtual clock may jump (5 ms, then 20 ms of real time per jump instead of 0.3 ms): an effect of late delivery of
+// loopback packets on a loaded machine does not repeat then, an effect of the code under test does. A violation is
+// reported when three executions in a row show the same signatures; a unit that stays anomalous without that is
+// inconclusive and its observations are discarded.
+func (out *Out) runConfirmed(label string, cv any, run func(co *Out)) {
+	var prevSigs []string
+	sameSigs := true
+	everFlagged := false
+	absorbed0 := anomalyCount.Load()
+	defer func() {
+		// anomalies flagged inside this unit have been dealt with here: an enclosing unit does not see them
+		anomalyAbsorbed.Add(anomalyCount.Load() - absorbed0)
+		SetPollDelay(DefaultPollDelay)
+	}()
+	for attempt := 1; ; attempt++ {
+		switch {
+		case !everFlagged:
+			SetPollDelay(DefaultPollDelay)
+		case attempt == 2:
+			SetPollDelay(5e6)
+		default:
+			SetPollDelay(20e6)
+		}
+		co := newOut()
+		co.curCase = cv
+		co.noConfirm = out.noConfirm
+		co.Samples = append(co.Samples, out.Samples...)
+		a0 := anomalyCount.Load() - anomalyAbsorbed.Load()
+		run(co)
+		flagged := anomalyCount.Load()-anomalyAbsorbed.Load() != a0
+		everFlagged = everFlagged || flagged
+		var sigs []string
+		unconfirmed := false
+		for k := range co.ViolCount {
+			sigs = append(sigs, k)
+			if IsSim && !out.noConfirm && !confirmedSigs[k] {
+				unconfirmed = true
+			}
+		}
+		sort.Strings(sigs)
+		if !flagged && !unconfirmed {
+			if attempt > 1 && len(prevSigs) > 0 && len(sigs) == 0 {
+				out.Anomalies++
+				out.Notes = append(out.Notes, fmt.Sprintf("%s: violation %v of an earlier execution did not repeat when the unit was re-executed: discarded as an effect of the virtual clock", trunc(label, 200), prevSigs))
+			}
+			out.merge(co)
+			return
+		}
+		if flagged {
+			out.Anomalies++
+		}
+		if attempt > 1 && strings.Join(sigs, "\x00") != strings.Join(prevSigs, "\x00") {
+			sameSigs = false
+		}
+		prevSigs = sigs
+		if attempt >= 3 {
+			anomalyMu.Lock()
+			why := fmt.Sprint(anomalyWhy)
+			anomalyWhy = nil
+			anomalyMu.Unlock()
+			if sameSigs && len(sigs) > 0 {
+				// the same violation on every execution is not an accident of the virtual clock
+				for _, k := range sigs {
+					confirmedSigs[k] = true
+				}
+				if flagged {
+					co.Notes = append(co.Notes, fmt.Sprintf("%s: virtual time moved unexpectedly on all %d attempts with identical violations (%s)", trunc(label, 200), attempt, why))
+				}
+				out.merge(co)
+			} else {
+				out.Inconclusive = append(out.Inconclusive, fmt.Sprintf("%s: %d executions disagree (time anomaly flagged: %v; signatures of the last one: %v), observations discarded (%s)", trunc(label, 300), attempt, flagged, sigs, why))
+			}
+			return
+		}
+	}
+}
+
+// Unit runs a part of a case (one history of many, one exchange sequence) under the same re-execution protocol as a
+// whole case, so that an anomaly or an unconfirmed violation re-executes only that part.
+func (o *Out) Unit(label string, run func(o *Out)) {
+	o.runConfirmed(label, o.curCase, run)
+}
+
+func trunc(s string, n int) string {
+	if len(s) > n {
+		return s[:n] + "..."
+	}
+	return s
+}
 
 func (o *Out) merge(c *Out) {
 	o.Evaluations += c.Evaluations
